@@ -153,7 +153,7 @@ def gen_sequences(ctx: C.Ctx, rng: random.Random):
         # length 4 over the full alphabet is 17^4 = 83521; keep all
         pass
     exhaustive_n = len(seqs)
-    for _ in range(ctx.budget(1500, 50000)):
+    for _ in range(ctx.budget(1500, 30000)):
         L = rng.randint(3, 30)
         s = []
         for _ in range(L):
